@@ -286,6 +286,19 @@ def call_custom_op(E, lib, name, args, kwargs):
         if isinstance(a, STensor):
             dev = a.device.type
             break
+    # a custom op called with a tensor-subclass argument is first offered to that class's __torch_dispatch__ (A-TORCH-DISPATCH), exactly
+    # like an aten op: quanto's classes do not list the quanto ops, so they fall back (dequantize / unpack) and call the op again
+    from .tm_tensor import collect_wrappers
+    ws = collect_wrappers([list(args), dict(kwargs)], [])
+    if ws:
+        w = ws[0]
+        td, _ = w.cls.lookup("__torch_dispatch__")
+        if td is not None and not isinstance(td, Token):
+            opobj = Obj(ExtClass("CustomOpOverload", {"__call__": Builtin(f"{lib}.{name}", lambda E2, self, *a, **k: call_custom_op(E2, lib, name, a, k))}))
+            opobj.fields["overloadpacket"] = AtenOp(f"{lib}.{name}")
+            opobj.fields["name"] = f"{lib}.{name}"
+            types = tuple({id(x.cls): x.cls for x in ws}.values())
+            return E.call(BoundMethod(w.cls, td), [opobj, types, tuple(args), dict(kwargs)], {})
     # recorded for callers' contracts (which arguments reached the kernel, in which dtypes)
     E.ps.setdefault("custom_op_log", []).append((f"{lib}::{name}", tuple(getattr(a, "dtype", None) for a in args)))
     keymap = {"cpu": "CPU", "cuda": "CUDA", "mps": "MPS"}
